@@ -217,9 +217,9 @@ type histStep struct {
 }
 
 type histCase struct {
-	Prop  string     `json:"prop"`
-	Init  []lib.Pair `json:"init"`
-	Steps []histStep `json:"steps"`
+	Prop  string      `json:"prop"`
+	Init  []lib.Pair  `json:"init"`
+	Steps []histStep  `json:"steps"`
 	Stmts []*lib.Stmt `json:"stmts"`
 }
 
